@@ -27,7 +27,7 @@ def store_subjects(tier, purpose="general"):
     # a head whose filter matches nothing can hide servable requests behind it
     out.append(S("rpfs", 2, live=3, prios=[0], filters=[None, "blue"], colors=["red", "blue"], drain=1, age_cap=0.5, notime=1))
     out.append(S("rpfs", 1, live=3, prios=[0], filters=[None, "blue", "red"], colors=["red", "blue"], drain=1, age_cap=0.5, notime=1))
-    out.append(S("rpfs", 2, live=2, prios=[0], filters=[None, "blue"], colors=["red", "blue"], td=1, drain=1, age_cap=2))
+    out.append(S("rpfs", 2, live=2, prios=[0], filters=[None, "blue"], colors=["red", "blue"], td=1, drain=1, age_cap=2, grid=1, puts_per_instant=2))
     # filter store: priorities, user filters, trigger delay; with and without explicit kernel stepping
     out.append(S("rpfs", 2, live=2, prios=[0, 1], drain=1, age_cap=0.5))
     out.append(S("rpfs", 2, live=2, prios=[0], filters=[None, "blue"], colors=["red", "blue"], drain=1, age_cap=0.5))
@@ -37,7 +37,7 @@ def store_subjects(tier, purpose="general"):
         out.append(S("rpfs", 3, live=3, prios=[0, 1], drain=1, age_cap=0.5))
         out.append(S("rpfs", 2, live=3, prios=[0], filters=[None, "blue", "red"], colors=["red", "blue"], drain=1, age_cap=0.5))
         out.append(S("rpfs", 2, live=2, prios=[0, 1], td=1, age_cap=2))
-        out.append(S("rpfs", 2, live=2, prios=[0], td=2, drain=1, age_cap=4, filters=[None, "blue"], colors=["red", "blue"]))
+        out.append(S("rpfs", 2, live=2, prios=[0], td=2, drain=1, age_cap=4, filters=[None, "blue"], colors=["red", "blue"], puts_per_instant=2))
     for mode in ("FIFO", "LIFO"):
         out.append(S("buffer", 2, live=2, mode=mode, delays=[0, 1], drain=1, age_cap=2))
         out.append(S("buffer", 1, live=2, mode=mode, delays=[0, 1], age_cap=2))
